@@ -136,6 +136,18 @@ fn main() {
         "C05" => mon::c05::run(&mut ctx),
         "C03" => mon::c03::run(&mut ctx),
         "C02" => mon::c02::run(&mut ctx),
+        "DUMPCOS" => {
+            // debugging aid: abverif DUMPCOS --set "rules=a##.x|b##.y" --set page=https://a/
+            let rules: Vec<String> = ctx.extra.get("rules").map(|s| s.split('|').map(|x| x.to_string()).collect()).unwrap_or_default();
+            let e = adblock::Engine::from_rules_debug(&rules, Default::default());
+            let page = ctx.extra.get("page").cloned().unwrap_or_else(|| "https://example.com/".into());
+            let r = e.url_cosmetic_resources(&page);
+            println!("{}", serde_json::to_string_pretty(&r).unwrap());
+            for l in &rules {
+                println!("{} -> {}", l, adblock::lists::parse_filter(l, true, Default::default()).map(|_| "ok".to_string()).unwrap_or_else(|e| format!("{:?}", e)));
+            }
+            std::process::exit(0);
+        }
         other => {
             eprintln!("unknown property {}", other);
             std::process::exit(2);
